@@ -56,6 +56,15 @@ def run(ck):
     from ..report import RuleView
     from . import c08
     c08._joined_row(RuleView(ck, {"C08.6": "C03.8"}))
+    ck.clause("C03.10", "the pairs of a joined record share one numbering: second-pass fragments are aligned as they were cut, with "
+                        "their label-number offset (as C02.4)")
+    from .c02 import fragments_reach_second_pass
+    fragments_reach_second_pass(ck, "C03.10")
+    ck.clause("C03.9", "two segments of a record never keep the same label: each overlapping sub-run is cut at the index from "
+                       "its own index table (as C15.5) - a label listed twice stalls the HitEnum walk")
+    from . import c15
+    cuts, impls, LS, RS = c15.collect_cuts(RuleView(ck, {}))
+    c15.per_side_cuts(ck, "C03.9", cuts, impls, LS, RS)
     row = p.find_class("AlignmentResultRow")
     cigar = p.lookup_method(row, "cigarString", None)
     if cigar is None or not cigar.is_property:
